@@ -853,7 +853,46 @@ def rule3_shrink(ctx, w):
                    'map[c_begin] and map[c_end - 1] are the first and last child only when c_begin < c_end; for an empty range they are '
                    'entries of unrelated nodes and the copied section would get a bogus child range', loc=st.loc)
     ctx.ob('C19.3', 'range rewriting sites', n >= 2, 'begin and end offsets are rewritten', loc=f.loc)
-    ctx.floor('C19.3', 6)
+    # marking pass: the children of node i are marked "copy" only in an iteration that found node i itself marked "copy"
+    # (children kept below a node that is dropped are orphans: the report sums over the whole table and counts them twice)
+    if maps:
+        marks = [st for st in f.order if st.op == 'store' and f.strip(f.ap(st.ops[1]).root) == maps[0].id and f.in_loop(st) and
+                 (lambda v_: v_ is not None and v_.op == 'select')(f.get(f.strip(st.ops[0])))]
+        ctx.ob('C19.3', 'marking pass: children marked through a copy / no-copy choice', len(marks) >= 2, 'map[k] = copy_children ? map_copy : map_no_copy',
+               loc=f.loc)
+        for st in marks:
+            sel = f.get(f.strip(st.ops[0]))
+            A = const_int(sel.ops[1])
+            cnd = f.get(f.strip(sel.ops[0]))
+            X = None
+            if cnd is not None and cnd.op == 'icmp' and cnd.pred == 'ne' and const_int(cnd.ops[1]) == 0:
+                X = cnd.ops[0]
+            elif cnd is not None and cnd.op == 'icmp' and cnd.pred == 'eq' and const_int(cnd.ops[1]) == 0:
+                X, A = cnd.ops[0], const_int(sel.ops[2])
+            own = [ic for ic in f.order if ic.op == 'icmp' and ic.pred in ('eq', 'ne') and const_int(ic.ops[1]) == A and A is not None and
+                   (lambda l: l is not None and l.op == 'load' and f.strip(f.ap(l.ops[0]).root) == maps[0].id)(f.get(f.strip(ic.ops[0])))]
+            ok = X is not None and bool(own)
+
+            def only_from_copied(v_, depth=0):
+                if const_int(v_) == 0:
+                    return True
+                ph = f.get(f.strip(v_)) if isinstance(v_, str) else None
+                if ph is None or ph.op != 'phi' or depth > 6:
+                    return False
+                from ..ir import EdgePoint
+                for val, b in ph.d['incoming']:
+                    if const_int(val) == 0:
+                        continue
+                    inner = f.get(f.strip(val)) if isinstance(val, str) else None
+                    if inner is not None and inner.op == 'phi' and inner.block.id != ph.block.id and only_from_copied(val, depth + 1):
+                        continue
+                    ep = EdgePoint(f, b, ph.block.id)
+                    if not any(f.on_edge(c_, p_ == (ic.pred == 'eq'), ep) for ic in own for c_, p_ in lib.cond_chain(f, ic.id)):
+                        return False
+                return True
+            ctx.ob('C19.3', 'marking pass: children are marked "copy" only below a node that is copied', ok and only_from_copied(X),
+                   'copy_children can be non-zero only in the iteration that found map[i] == map_copy', loc=st.loc)
+    ctx.floor('C19.3', 8)
 
 
 ST = 'dr_string_table.'
@@ -1271,6 +1310,8 @@ def rule5_growth(ctx):
 DUMP = 'src/profiler/dr_dump.c'
 READ = 'src/profiler/read_dag.c'
 MUTANTS = [
+    {'name': 'shrinking copy keeps the child of a create_task whose node is dropped (seed4 C18/m3)', 'expect': 'C19.3',
+     'edits': [('src/profiler/dr_dump.c', "    int copy_children = 0;\n    (void)dr_check(map[i] != map_init);", "    int copy_children = (t->info.kind == dr_dag_node_kind_create_task);\n    (void)dr_check(map[i] != map_init);")]},
     {'name': 'dump: child offset taken after the cursor moved', 'expect': 'C19.12',
      'edits': [('src/profiler/dr_dump.c', "      g_pi->child_offset = p - g_pi;\n      p++;", "      p++;\n      g_pi->child_offset = p - g_pi;")]},
     {'name': 'dump: subgraph end offset measured from the table cursor start', 'expect': 'C19.12',
